@@ -11,7 +11,7 @@ ID = "C20"
 LEVEL = "exploration"
 RULE = ("two (quick) / three (thorough) groups of 3 identical files; every subset of the droppable members locked by a "
         "foreign process holding fcntl write locks or read (shared) locks x op {remove, link, link --soft, dedupe, "
-        "move, move to a directory on another mount point known to fclones (loop-mounted ext4 image)} x {default, --no-lock}. Oracle: locked members keep inode, bytes and path and are named in a warning; "
+        "move, move to a directory on another mount point known to fclones (loop-mounted ext4 image)} x {default, --no-lock}; and a group in which the locked file has three hard-linked names among the droppable members (report made with and without -H, lock taken through each name). Oracle (a lock is on the file: every name of a locked inode counts as locked): locked members keep inode, bytes and path and are named in a warning; "
         "every other droppable member is processed; with --no-lock every droppable member is processed. "
         "Non-trivial = at least one member locked; distinct by (subset, lock type, op, flag).")
 ASSUMPTIONS = ["for `dedupe` on a file system without reflink support only 'locked members untouched' can be checked",
@@ -42,6 +42,14 @@ def tree(ngroups):
     return t
 
 
+LINKS_TREE = [
+    {"p": "r/a/k0", "k": "file", "c": ["base", 50, 9]},
+    {"p": "r/b/h1", "k": "file", "c": ["base", 50, 9]}, {"p": "r/b/h2", "k": "hard", "to": "r/b/h1"},
+    {"p": "r/c/h3", "k": "hard", "to": "r/b/h1"}, {"p": "r/c/k2", "k": "file", "c": ["base", 50, 9]},
+]
+LINKS_DROPPABLE = ["r/b/h1", "r/b/h2", "r/c/h3", "r/c/k2"]
+
+
 def cases(tier, seed):
     quick = tier == "quick"
     ng = 2 if quick else 3
@@ -54,6 +62,14 @@ def cases(tier, seed):
                     for nolock in (False, True):
                         out.append({"ngroups": ng, "locked": list(sub), "mode": mode, "op": op, "no_lock": nolock,
                                     "droppable": droppable})
+    # a locked file that has several names among the droppable members (hard links; report with and without -H)
+    for mode in ("write", "read"):
+        for sub in ([], ["r/b/h1"], ["r/b/h2"], ["r/c/h3"], ["r/c/k2"], ["r/b/h1", "r/c/k2"]):
+            for op in ("remove", "link", "softlink", "dedupe", "move", "move_other_mount"):
+                for nolock in (False, True):
+                    for gargs in ([], ["-H"]):
+                        out.append({"ngroups": 0, "locked": sub, "mode": mode, "op": op, "no_lock": nolock,
+                                    "droppable": LINKS_DROPPABLE, "links": True, "gargs": gargs})
     return out
 
 
@@ -61,8 +77,8 @@ def evaluate(case):
     viol = []
     feat = {"op": case["op"], "lock_type": case["mode"], "no_lock": case["no_lock"]}
     with C.Scratch() as sc:
-        C.make_tree(sc.tree, tree(case["ngroups"]))
-        report = D.make_report(sc, [], ["r"])
+        C.make_tree(sc.tree, LINKS_TREE if case.get("links") else tree(case["ngroups"]))
+        report = D.make_report(sc, case.get("gargs", []), ["r"])
         before = C.inventory(sc.tree)
         holder = None
         try:
@@ -97,24 +113,29 @@ def evaluate(case):
         if r["timeout"] or r["rc"] != 0:
             viol.append(dict(feat, kind="crash", detail="rc=%s %s" % (r["rc"], r["err"][-300:])))
         warns = D.warnings(r["err"])
+        locked_inodes = set(before[sc.path(x).decode()]["ino"] for x in case["locked"])
+        feat["locked_file_has_several_names"] = bool(case.get("links")) and any(x.startswith(("r/b/h", "r/c/h")) for x in case["locked"])
         for rel in case["droppable"]:
             p = sc.path(rel).decode()
             b, a = before[p], after.get(p)
-            locked = rel in case["locked"] and not case["no_lock"]
+            # a lock is held on the file (inode): every name of it is locked
+            locked = b["ino"] in locked_inodes and not case["no_lock"]
             untouched = a is not None and (a["type"], a["ino"], a.get("sha")) == (b["type"], b["ino"], b["sha"])
             if locked:
                 if not untouched:
                     viol.append(dict(feat, kind="locked_file_processed",
                                      detail="%s is locked (%s) by another process but `%s` changed it: %s -> %s" % (
                                          rel, case["mode"], case["op"], b, a)))
-                elif not any(os.path.basename(rel) in w for w in warns):
+                elif not any(os.path.basename(x) in w for w in warns for x in case["droppable"]
+                             if before[sc.path(x).decode()]["ino"] == b["ino"]):
                     viol.append(dict(feat, kind="no_warning_for_locked_file", detail="%s; stderr %s" % (rel, r["err"][-300:])))
             elif case["op"] != "dedupe":
                 if untouched:
                     viol.append(dict(feat, kind="unlocked_file_not_processed",
                                      detail="%s is not locked (locked: %s, --no-lock %s) but `%s` left it alone; stderr %s" % (
                                          rel, case["locked"], case["no_lock"], case["op"], r["err"][-300:])))
-    return {"violations": viol, "nontrivial": [case["op"], case["mode"], case["no_lock"], case["locked"]] if case["locked"] else None,
+    return {"violations": viol, "nontrivial": [case["op"], case["mode"], case["no_lock"], case["locked"], bool(case.get("links")),
+                                               case.get("gargs")] if case["locked"] else None,
             "outcome": "some_locked" if case["locked"] else "none_locked",
             "sample": {"locked": case["locked"], "op": case["op"], "no_lock": case["no_lock"], "mode": case["mode"]}}
 
